@@ -95,8 +95,9 @@ func New(id, tier, level string) *Ctx {
 			b = time.Duration(v) * time.Second
 		}
 	}
-	return &Ctx{ID: id, Tier: tier, Seed: seed, Level: level, Start: time.Now(), Budget: b, viol: map[string]*Violation{},
+	Cur = &Ctx{ID: id, Tier: tier, Seed: seed, Level: level, Start: time.Now(), Budget: b, viol: map[string]*Violation{},
 		Cov: map[string]interface{}{}, counters: map[string]int64{}, distinct: map[string]struct{}{}}
+	return Cur
 }
 
 // Thorough reports the tier.
@@ -166,6 +167,21 @@ func (c *Ctx) Violate(sub, key string, detail, cas interface{}) {
 	}
 	c.viol[key] = &Violation{Key: key, Count: 1, Detail: detail, Case: cas, Sub: sub}
 	c.order = append(c.order, key)
+}
+
+// Cur is the context of the running check (set by New; one check per process).
+var Cur *Ctx
+
+// FailValid is for harness preconditions that consist of gokrb5 handling a VALID input (loading the model keytab,
+// building a token with the library's own constructor, an unperturbed login against the simulated KDC). On the
+// unchanged tree they cannot fail; if a change to gokrb5 makes one fail, that is a violation to report (the library
+// rejects valid input), not an engine error. Records the violation and ends the run.
+func FailValid(what string, err error) {
+	if Cur == nil {
+		Fatal("%s: %v", what, err)
+	}
+	Cur.Violate("precondition", "gokrb5-fails-on-valid-input:"+what, map[string]interface{}{"err": fmt.Sprint(err)}, map[string]interface{}{"precondition": what})
+	Cur.Finish()
 }
 
 // NViolations returns the number of distinct violation keys so far.
